@@ -170,7 +170,14 @@ pub fn gen_scenario(ctx: &mut RunCtx, w: &mut Rng, cfg: &ScenCfg) -> Scenario {
             ops.push(Op::Public(if zero { Kind::Bits(0) } else { Kind::Any }));
         }
         // a few ordinary rows after the block, if they still count
-        let tail: Vec<Op> = prog.ops.iter().filter(|o| !matches!(o, Op::Filler(_))).take(3).cloned().collect();
+        // (no raw rows: a raw zero row needs the zero row the generator puts after it)
+        let tail: Vec<Op> = prog
+            .ops
+            .iter()
+            .filter(|o| !matches!(o, Op::Filler(_) | Op::RawZero { .. } | Op::RawRange { .. } | Op::RawArith { .. } | Op::SymmetricPair { .. }))
+            .take(3)
+            .cloned()
+            .collect();
         let mut cand = Program { ops: ops.clone() };
         cand.ops.extend(tail);
         prog = if count_constraints(&cand).is_some() { cand } else { Program { ops } };
@@ -185,6 +192,17 @@ pub fn gen_scenario(ctx: &mut RunCtx, w: &mut Rng, cfg: &ScenCfg) -> Scenario {
             i += 1;
             keep
         });
+    }
+    if !drop.is_empty() {
+        // dropping ops must not turn an honest instance into an unsatisfied one for a reason of its
+        // own: a raw zero row keeps the zero row behind it
+        let mut i = 0;
+        while i < prog.ops.len() {
+            if matches!(prog.ops[i], Op::RawZero { .. }) && !matches!(prog.ops.get(i + 1), Some(Op::Filler(_))) {
+                prog.ops.insert(i + 1, Op::Filler(1));
+            }
+            i += 1;
+        }
     }
     for op in &prog.ops {
         *ctx.st.ops_used.entry(op.name().to_string()).or_insert(0) += 1;
